@@ -15,7 +15,11 @@ Tie:  H  the hand model (lean/XrsVerif/Model/Regions.lean: two-pass labelling wi
 Oracle (from the property statement alone, independent of the model): flood fill over equal-valued
 4-/8-adjacent cells; labels must induce the same partition, be > 0, NaN exactly at NaN cells;
 shape / dims / coords / attrs / name of the result are those of the input; the input is not modified.
-The oracle is applied only to integer-valued rasters over small alphabets (the property's domain).
+The oracle is applied only to rasters on which "same value" is equality for the code's per-cell closeness test
+|neighbour - cell| <= atol + rtol*|cell| (the property's domain): small alphabets, and -- magnitude / dtype classes,
+`magnify` -- any alphabet whose different values are further apart than twice that tolerance, in every integer dtype
+int8..uint64 and float32 / float64, with negative values, dtype extremes, large nodata-like cells (1e5, 1e6, 1e20, -999999)
+next to small classes, large close-but-different values, rasters with more cells than the dtype can count.
 """
 import json
 import os
@@ -1068,7 +1072,16 @@ def run(r, scale=1):
               "logical raster; every enumerated raster with h,w >= 2 is also run F-ordered; many: rasters up to ~1000 (thorough "
               "1600) cells with 60-1000 provisional labels (alternating rows with bridges, isolated cells with stamped shapes, "
               "dense random); narrow: uint8 / int8 / int16 rasters with more provisional labels than "
-              "the dtype counts; wild (model only): values within / just outside rtol, +-inf, ints >= 1e5; il:areaConnectivity: "
+              "the dtype counts, also re-valued (negative values, dtype extremes); magnitude x dtype (`magnify`): the rasters of "
+              "the random (every 2nd), many (every 3rd) and narrow streams and a stream of blobs / noise over 2-5 values in three "
+              "size classes (<= 88 cells; 130-221: more than int8 counts; 260-551: more than uint8 counts; one 33000..40000-cell "
+              "int16 column) are re-valued by an injective map of their alphabet into a class of one of the ten dtypes int8..uint64, "
+              "float32, float64 (each in turn): neg = small negative and positive values, edges = the dtype's extremes and their "
+              "neighbours (64-bit: +-(2^62-1)), bigclose = large values 3..40 tolerances apart (1e5, 1e6, 2^24, 1e9, 1e12, 2^53-1e12, "
+              "+-1e20), spike = the small classes kept and 1-3 cells overwritten with 1e5 / 1e6 / 1e20 / -999999 / -9999 / dtype "
+              "extremes; judged by flood fill on equal values (integers compared as integers) whenever any two different values "
+              "of the raster are further apart than 2*(atol + rtol*max|v|), failing rasters are cropped greedily; "
+              "wild (model only): values within / just outside rtol, +-inf, ints >= 1e5; il:areaConnectivity: "
               "the generated program vs the numba function on rasters <= 9x12 (random, late-merging shapes, many labels, "
               "close-but-unequal values, +-inf, NaN frames / rows / scatter / all, 1xN / Nx1, n = 4 / 8, C / F / transposed / "
               "strided / negative-stride arrays); non-trivial = "
@@ -1136,6 +1149,12 @@ def run(r, scale=1):
     il_corr.stream(r, ["areaConnectivity"], {"quick": 500, "thorough": 5000}[r.tier] * scale)
     r.assumptions.append("float closeness (rtol/atol) is modelled in exact rational arithmetic; values are integers, "
                          "dyadics, or at least 1e-7 relative away from the tolerance boundary")
+    r.assumptions.append("'same value' is equality: judged rasters hold finite values any two of which differ by more than "
+                         "2*(atol + rtol*max|v|) (closer large values are merged by the unchanged code by design: isclose is not an "
+                         "equivalence); 64-bit integers up to 2^62-1 in magnitude (beyond, the kernel's own integer subtraction "
+                         "wraps); the model is compared only on rasters whose values a float64 holds exactly")
+    r.assumptions.append("known finding D26 (regions:signed-minimum): the minimum of a signed integer dtype in a raster that is not "
+                         "widened matches nothing (abs overflow); classified by re-judging the raster without those cells")
     r.trusted.append("numba / numpy semantics of _area_connectivity (compared on the generated cases only)")
     r.trusted.append("layer T3: the translator harness/facts_il.py (validated by the il:areaConnectivity stream); numba's int64 "
                      "wrap-around and float32 rounding of labels above 2^24 are outside ILang")
